@@ -54,7 +54,7 @@ func (g *G) useExpr(e Tri, t *Type, d int, root *Var) Tri {
 		}
 		return printCall(es...)
 	case KSlice:
-		iv := g.fresh("u")
+		iv := g.fresh("el")
 		body := printCall(tag, same(iv))
 		if !t.Elem.IsScalar() {
 			body = g.useExpr(same(iv), t.Elem, d-1, nil)
@@ -101,7 +101,7 @@ func (g *G) mapDigest(m Tri, t *Type) Tri {
 	return lines(
 		Tri{acc + ": " + i64[Wa] + " = 0", "设定 " + acc + ": " + i64[Wz] + " = 0", "var " + acc + " " + i64[Go] + " = 0"},
 		Tri{cnt + ": " + i64[Wa] + " = 0", "设定 " + cnt + ": " + i64[Wz] + " = 0", "var " + cnt + " " + i64[Go] + " = 0"},
-		block(head, lines(contrib, tf("%s++", cnt))),
+		block(head, lines(tf("_, _ = %s, %s", k, v), contrib, tf("%s++", cnt))),
 		printCall(same(quote("digest "+m[Wa])), same(acc), same(cnt)))
 }
 
@@ -195,7 +195,8 @@ func (g *G) stDecl() Tri {
 	name := g.freshVar()
 	// deliberate shadowing of an outer name
 	if g.sc.parent != nil && g.chance(1, 8, "shadow") {
-		outer := g.varsOf(func(v *Var) bool { return !v.Global && !g.declaredHere(v.Name) && v.Level == g.level })
+		// loop variables are textually in the loop body's block in the Go rendering: never shadow them
+		outer := g.varsOf(func(v *Var) bool { return !v.Global && !v.RO && !g.declaredHere(v.Name) && v.Level == g.level })
 		if len(outer) > 0 {
 			name = outer[g.n(0, len(outer)-1, "shadowOf")].Name
 			g.feat("shadowing")
@@ -335,12 +336,22 @@ func (g *G) stAssign() Tri {
 	return tf("%s = %s", p.E, g.gen(t, g.opt.Depth).E)
 }
 
+// ifaceArg is an expression passed where an untyped constant would take its
+// default type (println arguments): constants are converted explicitly.
+func (g *G) ifaceArg(t *Type, d int) Tri {
+	e := g.gen(t, d)
+	if e.Const && t.IsNum() {
+		return tf("%s(%s)", t.Tri(), e.E)
+	}
+	return e.E
+}
+
 func (g *G) stPrint() Tri {
 	n := g.n(1, 3, "nprint")
 	var as []Tri
 	for i := 0; i < n; i++ {
 		t := scalarTypes[g.n(0, len(scalarTypes)-1, "prT")]
-		as = append(as, g.gen(t, g.opt.Depth).E)
+		as = append(as, g.ifaceArg(t, g.opt.Depth))
 	}
 	return printCall(as...)
 }
@@ -684,7 +695,8 @@ func (g *G) stSliceOp() Tri {
 			es = append(es, g.gen(v.T.Elem, 2).E)
 		}
 		out := tf("%s = %s(%s, %s)", v.Name, tl("append", "追加", "append"), v.Name, join(es, ", "))
-		if v.Level == g.level && !v.Global && g.loops == 0 {
+		// the bound may only grow when this statement runs whenever the declaration did
+		if v.Level == g.level && !v.Global && g.declaredHere(v.Name) {
 			v.MinLen += n
 		}
 		return out
@@ -840,5 +852,5 @@ func (g *G) stStructOp() Tri {
 // stBlock: bare nested block.
 func (g *G) stBlock() Tri {
 	b := indent(g.body(g.small(), nil))
-	return Tri{"{\n" + b[Wa] + "\n}", "区块\n" + b[Wz] + "\n完毕", "{\n" + b[Go] + "\n}"}
+	return Tri{"{\n" + b[Wa] + "\n}", "区块:\n" + b[Wz] + "\n完毕", "{\n" + b[Go] + "\n}"}
 }
